@@ -139,6 +139,51 @@ def doTok (args : List String) : String :=
     | none => "panic"
   | _ => "bad-op"
 
+def parseStateId (x : String) : Option (Option StateId) :=
+  if x == "w" then some (some .word) else if x == "n" then some (some .number)
+  else if x == "s" then some (some .symbol) else if x == "q" then some (some .quote)
+  else if x == "c" then some (some .comment) else if x == "b" then some (some .whitespace)
+  else if x == "0" then some none else none
+
+/-- `D:lo:hi:x` `DC` `W:lo:hi:0|1` `WC` `B:lo:hi:0|1` `BC` `Y:runes:type` -/
+def parseCfgOp (t : String) : Option CfgOp :=
+  match t.splitOn ":" with
+  | ["D", lo, hi, x] =>
+    match lo.toNat?, hi.toNat?, parseStateId x with
+    | some a, some b, some st => some (.state a b st)
+    | _, _, _ => none
+  | ["DC"] => some .clearStates
+  | ["W", lo, hi, e] =>
+    match lo.toNat?, hi.toNat? with
+    | some a, some b => some (.wordChars a b (e == "1"))
+    | _, _ => none
+  | ["WC"] => some .clearWordChars
+  | ["B", lo, hi, e] =>
+    match lo.toNat?, hi.toNat? with
+    | some a, some b => some (.wsChars a b (e == "1"))
+    | _, _ => none
+  | ["BC"] => some .clearWsChars
+  | ["Y", v, ty] =>
+    match ty.toNat? with
+    | some n => some (.symbol (parseRunes v) n)
+    | none => none
+  | _ => none
+
+/-- `tokc <g|e> <opts> <cfgop>~<cfgop>… <runes>`: a constructed tokenizer reconfigured by the user -/
+def doTokC (args : List String) : String :=
+  match args with
+  | [k, o, cs, inp] =>
+    match parseKind k with
+    | some cfg =>
+      let ops := (cs.splitOn "~").filterMap parseCfgOp
+      if ops.length != (cs.splitOn "~").length then "bad-op"
+      else if !ops.all CfgOp.ok then "panic"
+      else match tokenizeChecked (cfg.configureAll ops) (parseOpts o) (parseRunes inp) with
+        | some ts => showToks ts
+        | none => "panic"
+    | none => "panic"
+  | _ => "bad-op"
+
 /-- spec side of C15: post-processing of the raw stream (+ Eof) -/
 def doTokSpec (args : List String) : String :=
   match args with
@@ -558,6 +603,7 @@ def handle (line : String) : String :=
   | "scanspec" :: args => doScanSpec args
   | "cmap" :: args => doCmap args
   | "tok" :: args => doTok args
+  | "tokc" :: args => doTokC args
   | "tokspec" :: args => doTokSpec args
   | "tokh" :: args => doTokH args
   | "sym" :: args => doSym args
